@@ -62,7 +62,14 @@ class EdgeSpanningTree(SpanningTree):
             return False
         return self.mesh.is_edge_on_border(a,b)
 
+    def _reset(self):
+        """Empties the tables, so that running compute() again on the same object does not append to the previous result"""
+        self.parent = [None]*len(self.mesh.vertices)
+        self.children = [[] for _ in self.mesh.id_vertices]
+        self.edges = []
+
     def compute(self):
+        self._reset()
         dist_to_root = [float("inf") for v in self.mesh.id_vertices]
         seen = [False for v in self.mesh.id_vertices]
         queue = deque()
@@ -138,6 +145,7 @@ class EdgeMinimalSpanningTree(EdgeSpanningTree):
         self.weights = weights
 
     def compute(self):
+        self._reset()
         if self.weights=="one":
             edge_length = lambda _ : 1.
         elif self.weights== "length":
@@ -186,6 +194,7 @@ class EdgeSpanningForest(SpanningForest):
         super().__init__(mesh)
 
     def compute(self) -> None :
+        self.trees, self.roots = [], [] # a second call starts from scratch
         visited = [False]*len(self.mesh.vertices)
         for v in self.mesh.id_vertices:
             if not visited[v]:
